@@ -213,7 +213,7 @@ def coq_make(targets, timeout=3000):
 
 def coqc_file(path, timeout=1200, cwd=None):
     p = subprocess.run(["timeout", str(timeout), "coqc", "-Q", COQ, "ZI", "-w",
-                        "-notation-overridden,-deprecated-hint-without-locality", path],
+                        "-notation-overridden,-deprecated-hint-without-locality,-abstract-large-number", path],
                        capture_output=True, text=True, cwd=cwd or os.path.dirname(path))
     return p.returncode, p.stdout, p.stderr
 
@@ -280,6 +280,9 @@ def coq_eval_cases(tie, terms, shard=300, timeout=1500, workdir=None, extra_eval
     with concurrent.futures.ThreadPoolExecutor(max_workers=NCPU) as ex:
         results = list(ex.map(one, files))
     for k, (rc, out, err) in enumerate(results):
+        if rc != 0 and ("Killed" in err or rc in (-9, 137, 124) or "Cannot allocate" in err or "Out of memory" in err):
+            # a shard killed under memory pressure from concurrent runs: retry it alone, once
+            rc, out, err = one(files[k])
         found = _RES.findall(out)
         if rc != 0 or len(found) != 2:
             errors.append({"shard": k, "rc": rc, "stderr": err[-3000:], "stdout": out[-1000:], "file": files[k]})
